@@ -21,6 +21,12 @@ def load_arrays():
     if os.path.exists(p2):
         with gzip.open(p2, "rb") as f:
             arrays += pickle.load(f)
+    # arrays whose content file records pending states: deleted positions, new / rewritten / copied files not yet synced
+    # (tools/make_golden3.py), every hash size
+    p3 = os.path.join(G, "arrays_pending.pkl.gz")
+    if os.path.exists(p3):
+        with gzip.open(p3, "rb") as f:
+            arrays += pickle.load(f)
     return arrays
 
 
@@ -87,6 +93,8 @@ def array_job(j):
     golden_tree = X.data_tree(L)
     golden_content = {p: labmod._slurp(p) for p in L.content_paths()}
     n = 0
+    if name.endswith("-pending"):
+        return pending_array_job(L, name, golden_tree, golden_content)
     for cmd, okrc in ((("status",), (0,)), (("list",), (0,)), (("diff",), (0,)), (("check",), (0,)), (("check", "-a"), (0,))):
         r = L.run(cmd[0], *cmd[1:])
         n += 1
@@ -157,11 +165,59 @@ def array_job(j):
     return dict(viols=v, n=n)
 
 
+def pending_array_job(L, name, golden_tree, golden_content):
+    """a reference array with pending states in its record: the current build loads it, re-writes it identically, agrees with the
+    independent parity oracle about the synced stripes, completes the sync, and the completed array verifies and rebuilds"""
+    v = []
+    n = 0
+    for cmd, okrc in ((("status",), (0,)), (("list",), (0,)), (("diff",), (2,))):
+        r = L.run(cmd[0], *cmd[1:])
+        n += 1
+        if r.rc not in okrc:
+            v.append(dict(kind="golden-array-%s-fails" % "-".join(cmd), array=name, rc=r.rc, out=r.text()[-400:]))
+    try:
+        C.decode(golden_content[L.content_paths()[0]])
+    except C.ContentError as e:
+        v.append(dict(kind="golden-content-undecodable-by-oracle", array=name, err=str(e)))
+        return dict(viols=v, n=n)
+    r = L.run("test-rewrite")
+    if r.rc != 0 or L.content_bytes() != golden_content[L.content_paths()[0]]:
+        v.append(dict(kind="rewrite-of-golden-content-differs", array=name, rc=r.rc))
+    L.scan_versions()
+    for o in X.c06(L, name):
+        o["kind"] = "golden-" + o["kind"]
+        o["array"] = name
+        v.append(o)
+    r = L.run("sync")
+    n += 1
+    if r.rc != 0:
+        v.append(dict(kind="golden-array-sync-fails", array=name, rc=r.rc, out=r.text()[-400:]))
+        return dict(viols=v, n=n)
+    for o in X.c06(L, name + " after sync"):
+        o["kind"] = "golden-after-sync-" + o["kind"]
+        o["array"] = name
+        v.append(o)
+    r = L.run("check")
+    n += 1
+    if r.rc != 0:
+        v.append(dict(kind="golden-array-check-after-sync-fails", array=name, rc=r.rc, out=r.text()[-300:]))
+    S = L.save()
+    for dev in F.devices(L):
+        L.restore(S)
+        F.apply_device_fault(L, dev, "lost")
+        r = L.run("fix")
+        n += 1
+        diffs = X.tree_equal(L, golden_tree)
+        if r.rc != 0 or diffs:
+            v.append(dict(kind="golden-array-not-repairable", array=name, lost=dev, rc=r.rc, diffs=[repr(x) for x in diffs[:3]], out=r.text()[-300:]))
+    return dict(viols=v, n=n)
+
+
 def run(ctx):
     tier = ctx.tier
     meta = json.load(open(os.path.join(G, "meta.json")))
     golden = open(os.path.join(G, "vectors.bin"), "rb").read()
-    ctx.set("rule", "all %d golden arrays of commit %s x {status, list, diff, check, check -a, rewrite, loss of each single device + "
+    ctx.set("rule", "all %d golden arrays (+ the migrating and the pending ones: record decoded, re-written identically, sync completed, then) of commit %s x {status, list, diff, check, check -a, rewrite, loss of each single device + "
                     "fix + check, independent parity oracle}; all %d vector bytes (2 hashes x 4 seeds x lengths 0..1100, CRC-32C "
                     "lengths 0..300, 9 parity blocks) reproduced by the current build and by the independent reference. "
                     "non-trivial = every array / every vector" % (len(meta["arrays"]), meta["commit"][:12], len(golden)))
